@@ -681,13 +681,6 @@ class Env:
             if r == "unsat":
                 self.rw_stats["divisors_proved_nonzero"] += 1
             else:
-                if getattr(self, "divisor_claim", None):
-                    # (see _nonzero) the harness asked for every divisor to be non-zero on every admissible input
-                    name, self.divisor_claim = self.divisor_claim, None
-                    try:
-                        self.claim(name, SymBool(pz != 0))
-                    finally:
-                        self.divisor_claim = name
                 self.rw_stats["divisors_assumed_nonzero"] += 1
                 if len(self.events) < 50:
                     self.events.append({"kind": "divisor_may_be_zero(%s)" % r, "divisor": str(z3.simplify(pz))[:160]})
@@ -719,14 +712,6 @@ class Env:
             return
         self.nonzero_done.add(key)
         r, _, _ = self._check(b == 0)
-        if r != "unsat" and getattr(self, "divisor_claim", None):
-            # the harness asked for every divisor to be non-zero on every admissible input: decided like any other claim (counterexample = an input
-            # for which the real code divides by zero)
-            name, self.divisor_claim = self.divisor_claim, None
-            try:
-                self.claim(name, SymBool(b != 0))
-            finally:
-                self.divisor_claim = name
         if r != "unsat":
             r2 = r
             if self.def_constraints and self.nonzero_with_defs:
